@@ -67,6 +67,36 @@ func runSource(ctx context.Context, cr creator, path string, options map[string]
 	return
 }
 
+// runSourceSubset runs the datasource with a subset of its schema's fields (a pruned field list).
+func runSourceSubset(ctx context.Context, cr creator, path string, keep []int) (recs [][]octosql.Value, err error, panicked interface{}) {
+	defer func() {
+		if p := recover(); p != nil {
+			panicked = p
+		}
+	}()
+	impl, schema, err := cr(ctx, path, nil)
+	if err != nil {
+		return nil, fmt.Errorf("creator: %w", err), nil
+	}
+	var sub []physical.SchemaField
+	for _, k := range keep {
+		sub = append(sub, schema.Fields[k])
+	}
+	node, err := impl.Materialize(ctx, physical.Environment{}, physical.NewSchema(sub, -1, physical.WithNoRetractions(true)), nil)
+	if err != nil {
+		return nil, fmt.Errorf("materialize: %w", err), nil
+	}
+	err = node.Run(execution.ExecutionContext{Context: ctx},
+		func(pctx execution.ProduceContext, record execution.Record) error {
+			vals := make([]octosql.Value, len(record.Values))
+			copy(vals, record.Values)
+			recs = append(recs, vals)
+			return nil
+		},
+		func(pctx execution.ProduceContext, msg execution.MetadataMessage) error { return nil })
+	return
+}
+
 // ---------- lines ----------
 
 var seps = []string{"\n", ";", "|", "ab", "aa", "aba", "\r\n", "é", "--", "\x00", "日本"}
@@ -849,6 +879,9 @@ func main() {
 			}
 		}
 	}
+
+	// parquet: oracle only
+	parquetSlice(cf, rng.Fork(), dir, f.Cases(40, 400))
 
 	// csv: oracle only
 	for i, n := 0, f.Cases(60, 600); i < n; i++ {
